@@ -40,6 +40,7 @@ ASSUMPTIONS = [
     "the lxml handler parses with recover=True: it may return an object for malformed input; only exception types, result type and termination are judged there",
     "well-formedness for the native handler is judged by plain expat (xml.etree.ElementTree.fromstring) outside xsdata: if expat raises, XmlParser(handler=XmlEventHandler) must raise ParserError",
     "nesting <= 200 (RecursionError is not provoked); watchdog 20 s per case -> inconclusive, never a violation",
+    "a DerivedElement whose value is an instance of the requested class counts as an instance of it (documented wrapper for roots with xsi:type)",
 ]
 MIN_DISTINCT = {"quick": 60000, "thorough": 1000000}
 TIME = {"quick": 45, "thorough": 600}
@@ -132,7 +133,10 @@ def judge_xml(ctx, data: bytes, clazz, fault, w0, original=None):
         elif st == "leak":
             ctx.violation(f"leaks/{type(val).__name__}/{fault.split(':')[0]}/{handler}/{bc.short_exc(val)[:90]}", f"{type(val).__name__}: {val}\nfault={fault}\n{data[:1200]!r}", w)
         elif st == "ok":
-            if not isinstance(val, clazz):
+            if type(val).__name__ == "DerivedElement" and isinstance(getattr(val, "value", None), clazz):
+                # the documented generic wrapper for a root element carrying xsi:type under another name
+                ctx.feature("result:DerivedElement-wrapping-the-requested-class")
+            elif not isinstance(val, clazz):
                 ctx.violation(f"wrong-result-type/{handler}/{fault.split(':')[0]}", f"returned {type(val).__name__} instead of {clazz.__name__}\n{data[:1200]!r}", w)
             elif handler == "native" and expat_ok is False:
                 ctx.violation(f"native-accepts-malformed/{fault.split(':')[0]}", f"expat rejects the document but XmlEventHandler returned an object\n{data[:1200]!r}", w)
